@@ -66,7 +66,7 @@ var methods = []string{"POST", "GET", "PUT", "DELETE", "HEAD", "OPTIONS", "PATCH
 var ctypes = []string{"application/json", "application/json; charset=utf-8", "text/plain", "", "application/x-www-form-urlencoded", "Application/JSON"}
 var browserHdr = []string{"setec", "", "other", "Setec", "setec "}
 var whoKinds = []string{"user", "tagged", "anonymous", "error", "plain-cap", "https-cap", "both-caps", "malformed-grant", "wrong-type-grant", "empty-grants", "no-caps", "bad-remote-addr", "restricted", "https-malformed", "plain-empty-https-malformed", "https-wrong-type", "plain-ok-https-malformed",
-	"tagged-with-owner-profile", "error-peer-not-found", "error-peer-not-found-wrapped", "error-deadline", "error-access-denied"}
+	"tagged-with-owner-profile", "wide-grants", "wide-grants-2", "error-peer-not-found", "error-peer-not-found-wrapped", "error-deadline", "error-access-denied"}
 var bodyKinds = []string{"valid", "null", "empty-object", "truncated", "wrong-types", "extra-fields", "huge-version", "trailing-garbage", "empty", "whitespace", "not-json", "array", "lowercase-fields"}
 
 type req struct {
@@ -167,6 +167,16 @@ func whoAnswer(kind string) (resp *apitype.WhoIsResponse, err error, rules []ref
 		w.CapMap[server.ACLCap] = raw(restrictedRules)
 		w.CapMap[httpsCap] = []tailcfg.RawMessage{`{"action":`}
 		return w, nil, restrictedRules, true
+	case "wide-grants", "wide-grants-2":
+		// several rules, the first naming several actions over an odd number of patterns, later ones adding
+		// patterns for one of those actions each: the rules apply exactly as written
+		rs := []refmodel.Rule{{Actions: []string{"get", "info"}, Patterns: []string{"m/a", "zz/1", "zz/2"}}, {Actions: []string{"get"}, Patterns: []string{"zz/3"}}, {Actions: []string{"info"}, Patterns: []string{"*"}}}
+		if kind == "wide-grants-2" {
+			rs = []refmodel.Rule{{Actions: []string{"info", "get", "put"}, Patterns: []string{"zz/1", "zz/2", "m/b"}}, {Actions: []string{"info"}, Patterns: []string{"zz/3"}}, {Actions: []string{"put"}, Patterns: []string{"m/*"}}, {Actions: []string{"get"}, Patterns: []string{"other"}}}
+		}
+		w := base()
+		w.CapMap[server.ACLCap] = raw(rs)
+		return w, nil, rs, true
 	case "empty-grants":
 		w := base()
 		w.CapMap[server.ACLCap] = []tailcfg.RawMessage{}
@@ -258,7 +268,7 @@ func TestC08(t *testing.T) {
 		sharedConditional(t, r, dir)
 		slowStore(t, r, dir)
 	}
-	r.Require("gate_violations", "accepted_requests", "accepted_200", "accepted_304", "accepted_403", "accepted_404", "accepted_other_error", "unidentified_callers", "client_mapping_checks", "audit_principals_checked", "grey_bodies", "concurrent_replies_checked", "overlapping_conditional_gets", "padded_bodies", "requests_against_a_slow_store")
+	r.Require("gate_violations", "accepted_requests", "accepted_200", "accepted_304", "accepted_403", "accepted_404", "accepted_other_error", "unidentified_callers", "client_mapping_checks", "audit_principals_checked", "grey_bodies", "concurrent_replies_checked", "overlapping_conditional_gets", "padded_bodies", "requests_against_a_slow_store", "requests_claiming_another_source")
 	r.Rule("requests = product of 7 endpoints x 7 methods x 6 content types x 5 browser-header values x 17 WhoIs scripts x 13 body kinds, enumerated completely for /api/get and /api/put on every database state and sampled (seeded) for the other endpoints, all from ONE source address per state so that identity must be re-derived per request. Distinct = (endpoint, first violated gate or outcome class, status)")
 }
 
@@ -274,7 +284,15 @@ func runState(t *testing.T, r *evid.Run, dir string, stIdx int) {
 		t.Fatal(err)
 	}
 	curWho := "user"
+	// the requests of this state come from one source address: a tailnet address, or loopback (a client on the
+	// server's own host). The tailnet answers for THAT address as scripted; about any other address it knows an
+	// administrator - so a server that lets the request say where it comes from hands out the administrator's rights.
+	remote := []string{"100.101.102.103:41641", "127.0.0.1:41641", "[::1]:41641"}[stIdx%3]
+	remoteIP := netip.MustParseAddrPort(remote).Addr()
 	srv.Override = func(ctx context.Context, addr string) (*apitype.WhoIsResponse, error) {
+		if ap, err := netip.ParseAddrPort(addr); err == nil && ap.Addr().Unmap() != remoteIP {
+			return httpdrv.WhoResponse(httpdrv.Who{Login: "admin@verif", Node: "admin", Rules: fullRules}, server.ACLCap), nil
+		}
 		resp, err, _, _ := whoAnswer(curWho)
 		return resp, err
 	}
@@ -288,7 +306,6 @@ func runState(t *testing.T, r *evid.Run, dir string, stIdx int) {
 		ops.ApplyModel(m, nil, true, op)
 		ops.ApplyReal(d, su, op)
 	}
-	const remote = "100.101.102.103:41641"
 	genOp := func(k ops.Kind) ops.Op {
 		op := ops.Op{Kind: k}
 		if k == ops.List {
@@ -346,6 +363,13 @@ func runState(t *testing.T, r *evid.Run, dir string, stIdx int) {
 		}
 		if q.Browser != "" {
 			hdr["Sec-X-Tailscale-No-Browsers"] = q.Browser
+		}
+		if caseNo%3 == 0 {
+			// the request claims, in headers, to come from the administrator's address
+			for k, v := range httpdrv.SpoofHeaders("100.99.99.99", "admin@verif")[(caseNo/3)%7] {
+				hdr[k] = v
+			}
+			r.Count("requests_claiming_another_source", 1)
 		}
 		before := snk.size()
 		pre := m.Clone()
@@ -469,7 +493,7 @@ func runState(t *testing.T, r *evid.Run, dir string, stIdx int) {
 			if len(wantTags) > 0 {
 				wantUser = ""
 			}
-			if e.Principal.Hostname != resp.Node.Name || e.Principal.IP != netip.MustParseAddr("100.101.102.103") || e.Principal.User != wantUser || strings.Join(e.Principal.Tags, ",") != strings.Join(wantTags, ",") {
+			if e.Principal.Hostname != resp.Node.Name || e.Principal.IP != remoteIP || e.Principal.User != wantUser || strings.Join(e.Principal.Tags, ",") != strings.Join(wantTags, ",") {
 				fail("audit-principal", fmt.Sprintf("recorded principal %+v, the tailnet said node %q user %q tags %v", e.Principal, resp.Node.Name, wantUser, wantTags))
 			}
 		}
@@ -534,7 +558,7 @@ func runState(t *testing.T, r *evid.Run, dir string, stIdx int) {
 	for i, n := 0, r.N(3000, 20000); i < n; i++ {
 		ep := endpoints[rng.IntN(len(endpoints))]
 		one(req{Endpoint: ep, Method: "POST", CType: "application/json", Browser: "setec", Body: "valid", Op: genOp(ep),
-			Who: []string{"user", "tagged", "restricted", "https-cap", "both-caps", "empty-grants", "no-caps", "plain-cap", "tagged-with-owner-profile"}[rng.IntN(9)]})
+			Who: []string{"user", "tagged", "restricted", "https-cap", "both-caps", "empty-grants", "no-caps", "plain-cap", "tagged-with-owner-profile", "wide-grants", "wide-grants-2"}[rng.IntN(11)]})
 	}
 	// client-side mapping through the real Client
 	cl := setec.Client{Server: "http://setec.verif/", DoHTTP: srv.ClientDo(remote)}
